@@ -105,10 +105,11 @@ func (c *deleteCleaner) applyMessagesLimit(segments []*segment) ([]*segment, err
 		cleanedSegments = append([]*segment{s}, cleanedSegments...)
 	}
 	if i > -1 {
-		// Collect segments to delete
+		// Collect segments to delete, oldest first: if the deletion is cut
+		// short, what is left is still a contiguous log.
 		toDelete := make([]*segment, 0, i+1)
-		for ; i > -1; i-- {
-			toDelete = append(toDelete, segments[i])
+		for j := 0; j <= i; j++ {
+			toDelete = append(toDelete, segments[j])
 		}
 		// Delete segments using mark-then-delete for consistency
 		if err := c.deleteSegments(toDelete); err != nil {
@@ -143,10 +144,11 @@ func (c *deleteCleaner) applyBytesLimit(segments []*segment) ([]*segment, error)
 		cleanedSegments = append([]*segment{s}, cleanedSegments...)
 	}
 	if i > -1 {
-		// Collect segments to delete
+		// Collect segments to delete, oldest first: if the deletion is cut
+		// short, what is left is still a contiguous log.
 		toDelete := make([]*segment, 0, i+1)
-		for ; i > -1; i-- {
-			toDelete = append(toDelete, segments[i])
+		for j := 0; j <= i; j++ {
+			toDelete = append(toDelete, segments[j])
 		}
 		// Delete segments using mark-then-delete for consistency
 		if err := c.deleteSegments(toDelete); err != nil {
